@@ -18,6 +18,7 @@ structure KSt where
   pillar : Pillar := {}
   sentinel : Sentinel := {}
   liquidity : Liquidity := {}
+  bridge : Bridge := {}
   bals : List (String × Bal) := []       -- per contract
 
 def KSt.bal (s : KSt) (c : String) : Bal := (lookup c s.bals).getD []
@@ -25,8 +26,13 @@ def KSt.setBal (s : KSt) (c : String) (b : Bal) : KSt := { s with bals := put c 
 
 def Names.tokName (n : Names) (t : Nat) : String := n.toks.getD t "?"
 
+def showCall (n : Names) : PayCall → String
+  | .none => "-"
+  | .burn => "burn"
+  | .mint t a to => s!"mint:{n.tokName t}:{a}:{n.addrName to}"
+
 def showPayouts (n : Names) (ps : List Payout) : String :=
-  String.join (ps.map fun p => s!" {n.addrName p.dst} {n.tokName p.tok} {p.amt} {if p.burn then "burn" else "-"}")
+  String.join (ps.map fun p => s!" {n.addrName p.dst} {n.tokName p.tok} {p.amt} {showCall n p.call}")
 
 def showResult {σ : Type} (n : Names) (r : Result σ) : String :=
   s!"{r.status} {r.descs.length}{showPayouts n r.descs}"
@@ -74,7 +80,7 @@ def parseOutcome (n : Names) : List String → Option (Names × Nat × List Payo
         let (n, dst) := n.addr dst
         let (n, tok) := n.tok tok
         let (n, r) ← go n k rest
-        pure (n, ⟨dst, tok, ← a.toNat?, kind == "burn"⟩ :: r)
+        pure (n, ⟨dst, tok, ← a.toNat?, if kind == "burn" then .burn else .none⟩ :: r)
       | _, _ => none
     let (n, ps) ← go n (← k.toNat?) rest
     pure (n, ← status.toNat?, ps)
@@ -103,6 +109,17 @@ def runSentinel (s : KSt) (n : Names) (m : Method Sentinel) (c : Ctx) : KSt × S
 def runLiquidity (s : KSt) (n : Names) (m : Method Liquidity) (c : Ctx) : KSt × String :=
   let r := vmStep m s.liquidity (s.bal "liquidity") c
   ({ (s.setBal "liquidity" r.bal) with liquidity := r.st, names := n }, showResult n r)
+
+def runBridge (s : KSt) (n : Names) (m : Method Bridge) (c : Ctx) : KSt × String :=
+  let r := vmStep m s.bridge (s.bal "bridge") c
+  ({ (s.setBal "bridge" r.bal) with bridge := r.st, names := n }, showResult n r)
+
+def parsePair (n : Names) : List String → Option (Names × Option PairInfo)
+  | ["none"] => some (n, none)
+  | [t, r, o, d] => do
+    let (n, t) := n.tok t
+    pure (n, some ⟨t, ← parseBool r, ← parseBool o, ← d.toNat?⟩)
+  | _ => none
 
 def parseTuples (n : Names) : List String → Option (Names × List (Nat × Nat))
   | [] => some (n, [])
@@ -194,6 +211,19 @@ def kCall (s : KSt) (n : Names) (h : Head) (args : List String) : Option (KSt ×
     some (runLiquidity s n (cancelLiquidityStake id) h.ctx)
   | "liquidity", "BurnZnn", [a] => do
     some (runLiquidity s n (liquidityBurnZnn (← a.toNat?) true) h.ctx)
+  | "bridge", "UnwrapToken", tx :: log :: to :: ta :: a :: canAct :: sigOk :: pair => do
+    let (n, tx) := n.hash tx
+    let (n, to) := n.addr to
+    let (n, ta) := n.hash ("token:" ++ ta)
+    let (n, pair) ← parsePair n pair
+    some (runBridge s n (unwrapToken (← parseBool canAct) (← parseBool sigOk) pair tx (← log.toNat?) to ta (← a.toNat?)) h.ctx)
+  | "bridge", "Redeem", tx :: log :: canAct :: pair => do
+    let (n, tx) := n.hash tx
+    let (n, pair) ← parsePair n pair
+    some (runBridge s n (redeemUnwrap (← parseBool canAct) pair tx (← log.toNat?)) h.ctx)
+  | "bridge", "RevokeUnwrapRequest", [tx, log, isAdmin] => do
+    let (n, tx) := n.hash tx
+    some (runBridge s n (revokeUnwrap (← parseBool isAdmin) tx (← log.toNat?)) h.ctx)
   | "sentinel", "DepositQsr", [] => some (runSentinel s n sentinelDeposit h.ctx)
   | "sentinel", "WithdrawQsr", [] => some (runSentinel s n sentinelWithdraw h.ctx)
   | "sentinel", "Register", [] => some (runSentinel s n (registerSentinel s.P) h.ctx)
@@ -314,6 +344,14 @@ def contractStep (s : KSt) : List String → Option (KSt × String)
     | none => some ({ s with names := n }, "none")
     | some e => some ({ s with names := n }, s!"{e.amount} {n.tokName e.tok} {e.weighted} {e.start} {e.revoke} {e.expiration}")
   | ["K-digest", "liquidity"] => some (s, s!"{s.liquidity.entries.length} {total (·.amount) s.liquidity.entries}")
+  | ["K-unwrap", tx, log] => do
+    let (n, tx) := s.names.hash tx
+    match lookup (tx, ← log.toNat?) s.bridge.requests with
+    | none => some ({ s with names := n }, "none")
+    | some r => some ({ s with names := n },
+        s!"{r.regHeight} {n.addrName r.toAddr} {((n.hashes.getD r.tokenAddress "token:?").drop 6).toString} {n.tokName r.tok} {r.amount} {r.redeemed} {r.revoked}")
+  | ["K-digest", "bridge"] =>
+    some (s, s!"{s.bridge.requests.length} {(s.bridge.requests.filter (fun e => e.2.redeemed != 0)).length}")
   | ["K-digest", "htlc"] => some (s, s!"{s.htlc.entries.length} {s.htlc.proxy.length}")
   | ["K-digest", "plasma"] =>
     some (s, s!"{s.plasma.fusions.length} {s.plasma.owed} {s.plasma.fused.length} {total id s.plasma.fused}")
